@@ -57,4 +57,44 @@ PROPS["C19"] = {
     "assumptions": COMMON_ASSUMPTIONS + ["buffer offsets below 2^62"],
 }
 
+RUNTIME_NOTE = ("Partial with respect to the Go runtime: goroutines are interleaved at the granularity of channel / atomic operations; preemption inside "
+                "such an operation, the Go memory model and the garbage collector are not modelled. Race-freedom is argued from regenerated syntactic facts "
+                "and observed with the race detector in the thorough tier, not proved.")
+PROPS["C10"] = {
+    "families": ["C10"],
+    "gen_deps": [],
+    "race": True,
+    "rule": "real util.MessageStream driven through NewMessageStream with a scripted in-memory connection and a recording parser (or the real "
+            "openflow13.Parse): frames of 8..5000 bytes, chunk sizes 1,2,3,4,5,7,n-1,n,n+1,2047,2048 and random, a split at every one of the first 12 "
+            "offsets of every frame boundary, every proper prefix of a trailing frame, >50 frames with a slow consumer (buffer recycling), a connection "
+            "failure after every byte of a frame; seeded scheduling noise in Read/Parse/consumer. Observed: multiset of delivered frames (re-encoded), "
+            "errors published, buffers torn while owned by a parser, buffers shared by two parsers. Non-trivial = at least one frame delivered.",
+    "trivial_outputs": ["frames=- errs=0 torn=0 shared=0", "frames=- errs=1 torn=0 shared=0"],
+    "level_text": "Kernel-checked theorems over two models of util.MessageStream's inbound side: (F1) the byte-at-a-time de-framer transcribed from inbound(): any partition of the byte stream into reads gives the same result; for every sequence of well-formed frames followed by a proper prefix of a frame, exactly the complete frames are handed over, intact, once, in order, and the incomplete one is not (induction over bytes, unbounded frame sizes and counts). (F2) a transition system of reader, any number of parser goroutines, consumer, buffer pool, error and shutdown channels with all parameters universally quantified: in every reachable state of every schedule frames are conserved (delivered ⊆ script as multisets; exactly once at quiescence of a failure-free run), buffers are conserved (never in two hands), at most one error is published. Tie: the real stream is run on chunked scripts under scheduling noise and compared with the de-framer model; ownership violations (torn/shared buffers) are observed directly.",
+    "level_note": RUNTIME_NOTE + " The transition system is hand-written from stream.go (channel operations listed in Gen.utilSites); frames still queued in pool.Full when the parsers receive the shutdown signal after a failure are not delivered (allowed by the statement; the check accepts any sub-multiset there).",
+    "assumptions": COMMON_ASSUMPTIONS + [RUNTIME_NOTE],
+}
+PROPS["C11"] = {
+    "families": ["C11"],
+    "gen_deps": [],
+    "race": True,
+    "rule": "1..64 producer goroutines x 1..80 messages of 8..7000 bytes each through m.Outbound with seeded scheduling noise; every conn.Write "
+            "recorded; checks per run: each Write is exactly one submitted encoding, per-producer order, exactly once, stream re-framed by header length.",
+    "trivial_outputs": ["ok 0"],
+    "level_text": "Kernel-checked invariant over a transition system of any number of producers, a FIFO channel of any capacity and one writer: for every producer, (written ++ held by writer ++ queued ++ not yet submitted) is exactly its submission sequence; hence per-producer order, prefix property in every reachable state of every schedule, exactly-once at quiescence, contiguous frames. The single-writer / one-Write-per-message premises are regenerated syntactic facts about util/stream.go checked by decide. Tie: the real stream is driven by concurrent producers and every Write is checked.",
+    "level_note": RUNTIME_NOTE + " A net.Conn that performs short writes without error is outside the model (the code ignores the byte count).",
+    "assumptions": COMMON_ASSUMPTIONS + [RUNTIME_NOTE],
+}
+PROPS["C14"] = {
+    "families": ["C14"],
+    "gen_deps": [],
+    "race": True,
+    "rule": "2..64 goroutines drawing 1..20000 ids each through NewHeaderGenerator and NewOfp13Header concurrently (all ids pairwise distinct, headers "
+            "well-formed); 2..64 goroutines running 60 sampled builder/encoder programs concurrently, results compared with the sequential run.",
+    "trivial_outputs": [],
+    "level_text": "Kernel-checked: (F1) for every schedule of atomic fetch-and-add draws by any number of goroutines the issued ids are pairwise distinct while fewer than 2^32 were drawn, with the contrasting theorem that a separate load/store admits duplicates; (F2) an abstract non-interference theorem: threads whose steps read read-only globals and write only their own store end, under every interleaving, with their sequential result; its premise is instantiated from facts regenerated from the source on every run (the complete list of package-level variables and the only write/address-of on any of them: &messageXid passed to atomic.AddUint32). Tie: regenerated facts + concurrent id draws and concurrent-vs-sequential runs on the real library (race detector in the thorough tier).",
+    "level_note": RUNTIME_NOTE + " logrus/log/math-rand internal state is third-party/stdlib and internally locked (trusted). The 'own store' premise for encoders/decoders (each allocates its own buffers) is supported by the absence of package-level mutable state, not proved per function.",
+    "assumptions": COMMON_ASSUMPTIONS + [RUNTIME_NOTE],
+}
+
 NOT_YET = {}
